@@ -52,7 +52,23 @@ func ruleIndexPreserving(pkgPrefix string, floor int) ruleFunc {
 				if fd.Type.Params != nil && len(fd.Type.Params.List) > 0 && len(fd.Type.Params.List[0].Names) > 0 {
 					par = fd.Type.Params.List[0].Names[0].Name
 				}
-				if len(args) == 2 && want[par+".Min"] && want[par+".Max"] {
+				extends := false
+				ast.Inspect(fd.Body, func(nd ast.Node) bool {
+					if call, ok := nd.(*ast.CallExpr); ok {
+						if se, ok := call.Fun.(*ast.SelectorExpr); ok && (se.Sel.Name == "Extend" || se.Sel.Name == "Union") {
+							extends = true
+						}
+						if se, ok := call.Fun.(*ast.SelectorExpr); ok && (se.Sel.Name == "Min" || se.Sel.Name == "Max") {
+							if id, ok := se.X.(*ast.Ident); ok && id.Name == "math" {
+								extends = true
+							}
+						}
+					}
+					return true
+				})
+				if len(args) == 2 && want[par+".Min"] && want[par+".Max"] && !extends {
+					c.R.Bad("H3-bound-corners", key, c.P.Pos(fd.Pos()), "the two projected corners are used as Min and Max as they are: a projection that reverses an axis (tile y grows south) yields an inverted, empty bound; the result must be the box of the two corners (Extend / min-max)")
+				} else if len(args) == 2 && want[par+".Min"] && want[par+".Max"] {
 					c.R.OK("H3-bound-corners", key, c.P.Pos(fd.Pos()), "projects exactly "+par+".Min and "+par+".Max")
 				} else {
 					c.R.Bad("H3-bound-corners", key, c.P.Pos(fd.Pos()), fmt.Sprintf("the projected bound must be built from the two projected corners; the projection is applied to %v", args))
